@@ -164,8 +164,19 @@ func singleStore(addr ssa.Value) ssa.Value {
 			if closureWrites(s, al) {
 				return nil
 			}
+		case *ssa.FieldAddr:
+			// &cell.f used only to read the field
+			if frefs := s.Referrers(); frefs != nil {
+				for _, fr := range *frefs {
+					switch fr.(type) {
+					case *ssa.UnOp, *ssa.DebugRef:
+					default:
+						return nil
+					}
+				}
+			}
 		default:
-			// address escapes (FieldAddr, call argument, ...): give up
+			// address escapes (call argument, ...): give up
 			return nil
 		}
 	}
